@@ -129,7 +129,9 @@ def classes():
     from taurex.data.profiles.temperature.temparray import TemperatureArray
     from taurex.data.profiles.temperature.rodgers import Rodgers2000
     from taurex.data.profiles.temperature.guillot import Guillot2010
-    return dict(iso=Isothermal, npoint=NPoint, array=TemperatureArray, rodgers=Rodgers2000, guillot=Guillot2010)
+    from taurex.data.profiles.temperature.file import TemperatureFile
+    return dict(iso=Isothermal, npoint=NPoint, array=TemperatureArray, rodgers=Rodgers2000, guillot=Guillot2010,
+                file=TemperatureFile)
 
 
 _PLANET = None
@@ -226,6 +228,226 @@ def run_vector(ctx, v, stats):
         stats['array_mirrored'] = stats.get('array_mirrored', 0) + int(bool(rev))
         same = rev
     ok('exact_value', same, 'n=%d got %r exact %r' % (n, prof, exp))
+
+
+# ----------------------------------------------------------------------------
+# binding A: file-based profile over its documented options (spec/MC_TempFile.tla)
+# ----------------------------------------------------------------------------
+
+# the harness's unit map: decades per pressure unit / Kelvin per temperature unit -> astropy unit names
+PUNITS = {0: ['Pa'], 2: ['mbar', 'hPa'], 3: ['kPa'], 5: ['bar'], 6: ['MPa']}
+TUNITS = {1: ['K'], 1000: ['kK']}
+DELIMS = {'ws': (' ', None), 'comma': (',', ','), 'semicolon': (';', ';')}
+
+
+def write_table(path, v):
+    """the exported table as text: temperature cells T/tu (TS Kelvin per unit), pressure cells 10^k, filler elsewhere"""
+    f = v['fmt']
+    pcol, tcol, ncols = v['layout']
+    sep = DELIMS[f['delim']][0]
+    lines = [sep.join(['col%d' % c for c in range(ncols)]) for _ in range(f['skip'])]
+    for row in v['table']:
+        cells = []
+        for c, cell in enumerate(row):
+            q = frac(cell)
+            if c == tcol:
+                cells.append(repr(float(q * Fraction(TS))))
+            elif c == pcol and v['pmode'] == 'pp':
+                if q.denominator != 1:
+                    raise Machinery('pressure cell is not an integer decade: %r' % (cell,))
+                cells.append('1e%d' % int(q))
+            else:
+                cells.append(repr(float(q)))
+        lines.append(sep.join(cells))
+    with open(path, 'w') as fh:
+        fh.write('\n'.join(lines) + '\n')
+
+
+def run_file_vector(ctx, v, tmpdir, idx=0):
+    import os
+    f, n = v['fmt'], v['n']
+    pcol, tcol, ncols = v['layout']
+    path = os.path.join(tmpdir, 'tp_%d.dat' % idx)
+    write_table(path, v)
+    h = sum(v['arr']) + n + idx
+    pun = PUNITS[f['pu']][h % len(PUNITS[f['pu']])]
+    tun = TUNITS[f['tu']][h % len(TUNITS[f['tu']])]
+    kw = dict(filename=path, temp_col=tcol)
+    if f['skip']:
+        kw['skiprows'] = f['skip']
+    if tun != 'K' or h % 2:
+        kw['temp_units'] = tun
+    if v['pmode'] == 'pp':
+        kw['press_col'] = pcol
+        if pun != 'Pa' or h % 2:
+            kw['press_units'] = pun
+    if DELIMS[f['delim']][1] is not None:
+        kw['delimiter'] = DELIMS[f['delim']][1]
+    if f['order'] == 'toa':
+        kw['reverse'] = True
+    P = [10.0 ** k for k in v['lp']]
+    outcome, prof, detail = evaluate('file', kw, n, P)
+    cls = 'file:%s:p=%s:t=%s:%s:%s:cols%d%d/%d' % (v['pmode'], pun if v['pmode'] == 'pp' else '-', tun, f['delim'], f['order'], pcol, tcol, ncols)
+    vec = dict(v, kind_='filevector', idx=idx)
+    ok = lambda clause, cond, d='': ctx.verdict(clause, bool(cond), cls=cls, detail=d or detail, vector=vec)
+    if not ok('one_value_per_layer', outcome == 'ok' and prof is not None and prof.shape == (n,),
+              'n=%d options %r: %s %s' % (n, {k: w for k, w in kw.items() if k != 'filename'}, outcome, detail)):
+        return
+    ok('finite_positive', np.all(np.isfinite(prof)) and np.all(prof > 0), 'profile %r' % prof)
+    lo, hi = TS * v['lo'], TS * v['hi']
+    ok('within_control_range', np.all(prof >= lo * (1 - RTOL)) and np.all(prof <= hi * (1 + RTOL)),
+       'file temperatures span [%r, %r] K, profile %r (options %r)' % (lo, hi, prof, {k: w for k, w in kw.items() if k != 'filename'}))
+    if v['lo'] == v['hi']:
+        ok('constant_when_controls_equal', np.all(np.abs(prof - lo) <= RTOL * lo), 'profile %r' % prof)
+    exp = np.array([TS * float(frac(c)) for c in v['prof']])
+    dev = np.abs(prof - exp) <= RTOL * np.abs(exp)
+    if v['pmode'] == 'pp':
+        if f['order'] == 'toa':
+            # which end value is held beyond the file's pressure range is not fixed by the statement for a
+            # top-first file: compare where the file covers the layer
+            inside = np.array([v['pp'][-1] <= k <= v['pp'][0] for k in v['lp']])
+            dev = dev | ~inside
+        same = np.all(dev)
+    else:
+        # orientation of a table without pressures is not in the statement: accept the mirror image
+        same = np.all(dev) or np.all(np.abs(prof - exp[::-1]) <= RTOL * np.abs(exp[::-1]))
+    ok('exact_value', same, 'n=%d got %r exact %r (options %r)' % (n, prof, exp, {k: w for k, w in kw.items() if k != 'filename'}))
+
+
+def run_file_vectors(ctx, vecs):
+    import tempfile, shutil
+    tmp = tempfile.mkdtemp(prefix='c12files_')
+    try:
+        for i, v in enumerate(vecs):
+            run_file_vector(ctx, v, tmp, i)
+    finally:
+        shutil.rmtree(tmp, ignore_errors=True)
+
+
+# ----------------------------------------------------------------------------
+# history independence of long-lived profile objects (spec/Functional.tla, harness/history.py)
+# ----------------------------------------------------------------------------
+
+GRIDS = [(9, 6, -2), (9, 5, -1), (12, 6, -2)]          # same layer count / other pressure range / other layer count
+GRIDS_SAME_N = [(6, 6, -2), (6, 5, 0), (6, 4, -4)]     # Rodgers: one control temperature per layer
+
+
+def history_scenarios(tmpdir):
+    """Every built-in temperature class as ONE long-lived object whose controls are written through their
+    fitting parameters (and public property setters) and which is re-initialised on other grids; values
+    include validity-changing node moves (inverted pressure node, excessive slope, zero opacity, negative
+    temperature): the digest of such a state is the exception type."""
+    import os
+    from ..fx_profiles import ProfileScenario, pgrid
+    C = classes()
+
+    def init(obj, g):
+        n, P, _ = pgrid(g)
+        obj.initialize_profile(planet(), n, P)
+
+    def read(obj):
+        return np.asarray(obj.profile, dtype=float)
+
+    def S(name, make, controls, grid=GRIDS[0]):
+        return ProfileScenario(name, make, controls, init, read, default_grid=grid)
+
+    out = []
+    tv = [800.0, 1500.0, 2100.5]
+    out.append(S('iso:fit', lambda kw: C['iso'](**kw), [('fit', 'T', 'T', tv), ('grid', 'grid', None, GRIDS)]))
+    out.append(S('iso:prop', lambda kw: C['iso'](**kw), [('prop', 'isoTemperature', 'T', tv), ('grid', 'grid', None, GRIDS)]))
+
+    # ---- NPoint: one interior node, slope limit 1000 K/decade
+    def np1(kw):
+        return C['npoint'](T_surface=kw.get('T_surface', 1500.0), T_top=kw.get('T_top', 500.0),
+                           temperature_points=[kw.get('T1', 1200.0)], pressure_points=[kw.get('P1', 1e3)],
+                           P_surface=kw.get('P_surface'), P_top=kw.get('P_top'), limit_slope=1000.0, smoothing_window=kw.get('sw', 10))
+    t1 = [1200.0, 700.0, 9000.0]                  # the last one is too steep
+    p1 = [1e3, 1e1, 1e7]                          # the last one lies above the surface (inverted)
+    out.append(S('npoint1:nodes', np1, [('fit', 'T_point1', 'T1', t1), ('fit', 'P_point1', 'P1', p1), ('grid', 'grid', None, GRIDS)]))
+    out.append(S('npoint1:ends:fit', np1, [('fit', 'T_surface', 'T_surface', [1500.0, 1000.0, 8000.0]),
+                                           ('fit', 'T_top', 'T_top', [500.0, 1100.0, 1200.0]),
+                                           ('fit', 'P_point1', 'P1', [1e3, 1e-1, 1e-3])]))
+    out.append(S('npoint1:ends:prop', np1, [('prop', 'temperatureSurface', 'T_surface', [1500.0, 1000.0, 8000.0]),
+                                            ('prop', 'temperatureTop', 'T_top', [500.0, 1100.0, 1200.0]),
+                                            ('grid', 'grid', None, GRIDS)]))
+    out.append(S('npoint1:pends:fit', np1, [('fit', 'P_surface', 'P_surface', [1e6, 1e5, 1e2]),
+                                            ('fit', 'P_top', 'P_top', [1e-2, 1e0, 1e4]),
+                                            ('fit', 'T_point1', 'T1', t1)]))
+    out.append(S('npoint1:pends:prop', np1, [('prop', 'pressureSurface', 'P_surface', [1e6, 1e5, 1e2]),
+                                             ('prop', 'pressureTop', 'P_top', [1e-2, 1e0, 1e4]),
+                                             ('grid', 'grid', None, GRIDS)]))
+
+    # ---- NPoint: three interior nodes, every intermediate node written through its own parameter
+    def np3(kw):
+        T = [kw.get('T1', 1300.0), kw.get('T2', 900.0), kw.get('T3', 700.0)]
+        Pn = [kw.get('P1', 1e4), kw.get('P2', 1e2), kw.get('P3', 1e0)]
+        return C['npoint'](T_surface=1500.0, T_top=500.0, temperature_points=T, pressure_points=Pn, limit_slope=1000.0,
+                           smoothing_window=kw.get('sw', 25))
+    out.append(S('npoint3:T', np3, [('fit', 'T_point1', 'T1', [1300.0, 1450.0, -4000.0]), ('fit', 'T_point2', 'T2', [900.0, 1000.0, 6000.0]),
+                                    ('fit', 'T_point3', 'T3', [700.0, 650.0, 3100.0])]))
+    out.append(S('npoint3:P', np3, [('fit', 'P_point1', 'P1', [1e4, 1e5, 1e1]), ('fit', 'P_point2', 'P2', [1e2, 1e3, 1e-1]),
+                                    ('fit', 'P_point3', 'P3', [1e0, 1e1, 1e-3])]))
+    out.append(S('npoint3:mixed', np3, [('fit', 'P_point2', 'P2', [1e2, 1e3, 1e5]), ('fit', 'T_point3', 'T3', [700.0, 650.0, 3100.0]),
+                                        ('grid', 'grid', None, GRIDS)]))
+
+    # ---- Rodgers (default covariance): one control per layer
+    def rod(kw):
+        T = [1800.0, 1500.0, 1300.0, 1000.0, 800.0, 600.0]
+        for k, v in kw.items():
+            if k.startswith('T'):
+                T[int(k[1:])] = v
+        return C['rodgers'](temperature_layers=T, correlation_length=kw.get('h', 5.0))
+    hs = [5.0, 1.5, 0.7]
+    out.append(S('rodgers:layers', rod, [('fit', 'T_1', 'T0', [1800.0, 2500.0, 300.0]), ('fit', 'T_4', 'T3', [1000.0, 400.0, 2900.0]),
+                                         ('fit', 'T_6', 'T5', [600.0, 100.0, 1000.0])], grid=GRIDS_SAME_N[0]))
+    out.append(S('rodgers:length:fit', rod, [('fit', 'correlation_length', 'h', hs), ('grid', 'grid', None, GRIDS_SAME_N),
+                                             ('fit', 'T_3', 'T2', [1300.0, 1310.0, 200.0])], grid=GRIDS_SAME_N[0]))
+    out.append(S('rodgers:length:prop', rod, [('prop', 'correlationLength', 'h', hs), ('grid', 'grid', None, GRIDS_SAME_N)],
+                 grid=GRIDS_SAME_N[0]))
+
+    # ---- Guillot: physical values and listed non-physical ones (zero opacity, negative temperature)
+    def gui(kw):
+        kw.setdefault('kappa_v2', 0.0008)      # two different visible streams, so that alpha matters
+        return C['guillot'](**kw)
+    out.append(S('guillot:a:fit', gui, [('fit', 'T_irr', 'T_irr', [1500.0, 2200.0, -100.0]), ('fit', 'kappa_irr', 'kappa_irr', [0.01, 0.05, 0.0]),
+                                        ('fit', 'alpha', 'alpha', [0.5, 0.2, 0.9])]))
+    out.append(S('guillot:b:fit', gui, [('fit', 'kappa_v1', 'kappa_v1', [0.005, 0.02, 0.0]), ('fit', 'kappa_v2', 'kappa_v2', [0.005, 0.001, 0.0]),
+                                        ('fit', 'T_int_guillot', 'T_int', [100.0, 300.0, -5.0])]))
+    out.append(S('guillot:grid', gui, [('fit', 'T_irr', 'T_irr', [1500.0, 2200.0, 900.0]), ('grid', 'grid', None, GRIDS),
+                                       ('fit', 'kappa_v1', 'kappa_v1', [0.005, 0.02, 0.0])]))
+    out.append(S('guillot:prop', gui, [('prop', 'equilTemperature', 'T_irr', [1500.0, 2200.0, -100.0]),
+                                       ('prop', 'meanInfraOpacity', 'kappa_irr', [0.01, 0.05, 0.0]),
+                                       ('prop', 'opticalRatio', 'alpha', [0.5, 0.2, 0.9])]))
+    out.append(S('guillot:prop2', gui, [('prop', 'meanOpticalOpacity1', 'kappa_v1', [0.005, 0.02, 0.0]),
+                                        ('prop', 'meanOpticalOpacity2', 'kappa_v2', [0.005, 0.001, 0.0]),
+                                        ('prop', 'internalTemperature', 'T_int', [100.0, 300.0, -5.0])]))
+
+    # ---- array / file: no writable control, the grid is the only setting
+    arr = [1900.0, 1500.0, 1450.0, 900.0, 400.0]
+    out.append(S('array', lambda kw: C['array'](tp_array=list(arr)), [('grid', 'grid', None, [(9, 6, -2), (5, 6, -2), (5, 4, 0)])]))
+    out.append(S('array:pp', lambda kw: C['array'](tp_array=list(arr), p_points=[1e5, 1e4, 1e2, 1e0, 1e-1]), [('grid', 'grid', None, GRIDS)]))
+    path = os.path.join(tmpdir, 'history_tp.dat')
+    with open(path, 'w') as fh:
+        fh.write('P[bar] T[kK]\n' + '\n'.join('%r %r' % (p / 1e5, t / 1e3) for p, t in zip([1e5, 1e4, 1e2, 1e0, 1e-1], arr)) + '\n')
+    out.append(S('file:pp', lambda kw: C['file'](filename=path, skiprows=1, press_col=0, temp_col=1, press_units='bar', temp_units='kK'),
+                 [('grid', 'grid', None, GRIDS)]))
+    return out
+
+
+def run_histories(ctx, nwalks):
+    import tempfile, shutil
+    from .. import history
+    from ..fx_profiles import check_setters_took_effect
+    tmp = tempfile.mkdtemp(prefix='c12hist_')
+    try:
+        scs = history_scenarios(tmp)
+        dead = check_setters_took_effect(scs)
+        if dead:
+            raise Machinery('history scenarios with a control that changes nothing on a fresh object: %r' % dead)
+        nt = history.run_history(ctx, scs, nwalks)
+        ctx.note('history walks: %d traces over %d long-lived profile objects (controls via fitting parameters, property setters, re-initialisation)' % (nt, len(scs)))
+    finally:
+        shutil.rmtree(tmp, ignore_errors=True)
 
 
 # ----------------------------------------------------------------------------
@@ -587,6 +809,23 @@ def run(ctx):
     for v in vecs:
         run_vector(ctx, v, stats)
     ctx.note('vectors replayed: %d; resampled arrays returned mirrored (top value first): %d' % (len(vecs), stats.get('array_mirrored', 0)))
+    # ---- file-based profile over its documented options (units, columns, header lines, delimiter, row order)
+    ctx.check_spec('exhaustive-file', 'MC_TempFile', 'MC_TempFile_%s.cfg' % ctx.tier, need_actions=('Eval',))
+    ctx.expect_refuted('refute-file-punit-on-both', 'MC_TempFile', 'RF_TempFile_punit.cfg', 'WithinControlRange')
+    ctx.expect_refuted('refute-file-columns-swapped', 'MC_TempFile', 'RF_TempFile_columns.cfg', 'FileTransparent')
+    if not q:
+        ctx.expect_refuted('refute-file-tunit-ignored', 'MC_TempFile', 'RF_TempFile_tunit.cfg', 'WithinControlRange')
+    res = ctx.check_spec('export-file', 'MC_TempFile', 'EX_TempFile_%s.cfg' % ctx.tier, workers=1)
+    fvecs = dedupe(res.tagged('VEC'))
+    if len(fvecs) < 300:
+        raise Machinery('only %d file vectors exported' % len(fvecs))
+    need = {(v['pmode'], v['fmt']['pu'], v['fmt']['tu']) for v in fvecs}
+    if not any(pm == 'pp' and pu != 0 for pm, pu, _ in need) or not any(tu != 1 for _, _, tu in need):
+        raise Machinery('file vectors do not cover non-default units')
+    run_file_vectors(ctx, fvecs)
+    ctx.note('file vectors replayed: %d (pressure units %s, temperature units %s, %d layouts)' %
+             (len(fvecs), sorted({v['fmt']['pu'] for v in fvecs}), sorted({v['fmt']['tu'] for v in fvecs}),
+              len({tuple(v['layout']) for v in fvecs})))
     # ---- binding B
     rng = random.Random(ctx.seed * 7919 + 12)
     ns = layer_counts(ctx)
@@ -607,6 +846,8 @@ def run(ctx):
             recipes += guillot_recipes(rng, n)
     ng = validate(ctx, recipes, 'guillot')
     ctx.note('trace events: %d range (layer counts %d..%d, %d distinct), %d exact npoint, %d guillot' % (nr, ns[0], ns[-1], len(ns), nn, ng))
+    # ---- history independence of long-lived objects
+    run_histories(ctx, 12 if q else 120)
 
 
 def replay(ctx, violations):
@@ -618,3 +859,18 @@ def replay(ctx, violations):
             validate(ctx, [v['recipe']], 'replay', canary=False)
         elif v.get('kind_') == 'vector':
             run_vector(ctx, {k: w for k, w in v.items() if k != 'kind_'}, stats)
+        elif v.get('kind_') == 'filevector':
+            import tempfile, shutil
+            tmp = tempfile.mkdtemp(prefix='c12files_')
+            try:
+                run_file_vector(ctx, {k: w for k, w in v.items() if k not in ('kind_', 'idx')}, tmp, v.get('idx', 0))
+            finally:
+                shutil.rmtree(tmp, ignore_errors=True)
+        elif 'history' in v:
+            import tempfile, shutil
+            from ..fx_profiles import replay_trail
+            tmp = tempfile.mkdtemp(prefix='c12hist_')
+            try:
+                replay_trail(ctx, history_scenarios(tmp), v)
+            finally:
+                shutil.rmtree(tmp, ignore_errors=True)
